@@ -122,7 +122,8 @@ def _impl_paths(desc, vids, run_some=False):
                         listing.append(os.path.relpath(os.path.join(r, f), base_r))
                     for d in ds:
                         listing.append(os.path.relpath(os.path.join(r, d), base_r) + '/')
-                out[vid]['listing'] = sorted(listing)
+                import re
+                out[vid]['listing'] = sorted(re.sub(r'attempt_\d+$', 'attempt_0', x) for x in listing)  # generated marker file, numbered per run
     finally:
         w.dispose()
         scratch.drop(root)
@@ -163,6 +164,8 @@ def _ref_paths(desc, vids, modname, run_some=False):
                     listing |= {rp + '/', rp + '/sub/', rp + '/sub/x.txt', rp + '/term.json'}
                     if kind == 'continues':
                         listing.add(rp + '/step0')
+                    else:
+                        listing.add(rp + '/attempt_0')
                 elif kind == 'list_of_numpy':
                     listing |= {rp + '/', rp + '/0.npy', rp + '/1.npy'}
                 else:
